@@ -98,6 +98,7 @@ def hms_to_seconds(s):
 def parse_long(text):
     """-> dict(zones={name: [era fields list]}, links={link: target}, rules={name: [rule fields]}, order=[...])"""
     zones, links, rules = {}, {}, {}
+    earlier_links = []        # (target, link) of Link lines that a LATER line for the same name overrides (zic: last wins)
     cur = None
     for raw in text.splitlines():
         ln = raw.split('#', 1)[0].rstrip()
@@ -108,6 +109,8 @@ def parse_long(text):
             rules.setdefault(f[1], []).append(f[2:])
             cur = None
         elif f[0] == 'Link':
+            if f[2] in links:
+                earlier_links.append((links[f[2]], f[2]))
             links[f[2]] = f[1]
             cur = None
         elif f[0] == 'Zone':
@@ -115,7 +118,10 @@ def parse_long(text):
             zones[cur] = [f[2:]]
         elif cur is not None:
             zones[cur].append(f)
-    return {"zones": zones, "links": links, "rules": rules}
+    out = {"zones": zones, "links": links, "rules": rules}
+    if earlier_links:
+        out["earlier_links"] = earlier_links
+    return out
 
 
 def render_long(p):
@@ -126,6 +132,9 @@ def render_long(p):
     for name, eras in p["zones"].items():
         for i, e in enumerate(eras):
             out.append(('Zone %s ' % name if i == 0 else '\t\t\t') + ' '.join(e))
+    for target, link in p.get("earlier_links", []):
+        if link in p["links"]:
+            out.append('Link %s %s' % (target, link))      # overridden by the line below; kept so that the text stays the same source
     for link, target in p["links"].items():
         out.append('Link %s %s' % (target, link))
     return '\n'.join(out) + '\n'
